@@ -848,6 +848,11 @@ func Compare(refTree *Tree, compTrees <-chan Trees, tips, comparetreeidentical b
 									common++
 								}
 							}
+							// The trees are identical only if no bipartition
+							// of the reference tree is missing either
+							if sametree && total2 != total {
+								sametree = false
+							}
 						}
 					}
 				}
